@@ -83,10 +83,13 @@ class Helper:
         body = list(node.body)
         if body and isinstance(body[0], ast.Expr) and isinstance(body[0].value, ast.Constant) and isinstance(body[0].value.value, str):
             body = body[1:]
-        body = [b for b in body if not isinstance(b, ast.Global)]
+        body = [b for b in body if not isinstance(b, (ast.Global, ast.Nonlocal))]
         self.body = body
         self.expr = body[0].value if len(body) == 1 and isinstance(body[0], ast.Return) and body[0].value is not None else None
         self.unique = False
+        self.parent = None          # enclosing FunctionDef for a nested helper (a closure)
+        self.holder = None
+        self.nonlocals = {nm for x in _shallow(node) if isinstance(x, ast.Nonlocal) for nm in x.names}
 
     def eligible(self):
         n = self.node
@@ -110,6 +113,8 @@ class Helper:
                     continue        # a try block without a return inside moves as a whole
                 if isinstance(x, ast.Global) and not (set(x.names) & _stored_names(n.body)):
                     continue        # a `global` declaration for names the helper only reads says nothing
+                if isinstance(x, ast.Nonlocal) and self.parent is not None and x in n.body:
+                    continue        # a closure inlined into its parent: nonlocal names are the parent's own variables
                 return False
             if isinstance(x, ast.Call):
                 f = x.func
@@ -128,8 +133,47 @@ class Helper:
         return True
 
 
-def collect_helpers(modules, baseline):
+def _nested_defs(fn, q):
+    """(nested FunctionDef, its qualified name, the statement list that holds it) for functions nested directly in fn's blocks"""
+    out = []
+
+    def rec(stmts):
+        for st in stmts:
+            if isinstance(st, ast.FunctionDef):
+                out.append((st, q + '.' + st.name, stmts))
+                continue
+            if isinstance(st, ast.ClassDef):
+                continue
+            for f in ('body', 'orelse', 'finalbody'):
+                if isinstance(getattr(st, f, None), list):
+                    rec(getattr(st, f))
+            for hd in getattr(st, 'handlers', []) or []:
+                rec(hd.body)
+    rec(fn.body)
+    return out
+
+
+def collect_helpers(modules, baseline, nested_baseline=None):
     out = {}
+    nested_baseline = nested_baseline if nested_baseline is not None else baseline_nested()
+
+    def add_nested(m, fn, q, depth=0):
+        for d, dq, holder in _nested_defs(fn, q):
+            if dq not in nested_baseline and dq not in baseline:
+                h = Helper(dq, m, None, d)
+                h.parent = fn
+                h.holder = holder
+                out[dq] = h
+            if depth < 2:
+                add_nested(m, d, dq, depth + 1)
+    for m in modules.values():
+        for st in m.tree.body:
+            if isinstance(st, ast.FunctionDef):
+                add_nested(m, st, '%s.%s' % (m.name, st.name))
+            elif isinstance(st, ast.ClassDef):
+                for s2 in st.body:
+                    if isinstance(s2, ast.FunctionDef):
+                        add_nested(m, s2, '%s.%s.%s' % (m.name, st.name, s2.name))
     for m in modules.values():
         for st in m.tree.body:
             if isinstance(st, ast.FunctionDef):
@@ -363,7 +407,7 @@ def instantiate(h, call, caller_node, recv, target_names=None):
                 bound[p] = h.defaults[p]
             else:
                 raise Unsupported('missing argument')
-    stored = _stored_names(h.body)
+    stored = _stored_names(h.body) - h.nonlocals
     caller_names = _names_in(caller_node)
     arg_names = set()
     for a in bound.values():
@@ -533,7 +577,8 @@ def inline_into_function(fn, h, selfnames, counter):
         for st in stmts:
             # nested function definitions share `self` through the closure: descend with the same rule
             if isinstance(st, (ast.FunctionDef, ast.AsyncFunctionDef)):
-                st.body = do_block(st.body)
+                if st is not h.node:
+                    st.body = do_block(st.body)
                 out.append(st)
                 continue
             if isinstance(st, ast.ClassDef):
@@ -672,6 +717,24 @@ def inline_into_function(fn, h, selfnames, counter):
     return n_sites[0]
 
 
+def _remove_nested(fn, node):
+    def rec(stmts):
+        for i, st in enumerate(stmts):
+            if st is node:
+                del stmts[i]
+                if not stmts:
+                    stmts.append(ast.copy_location(ast.Pass(), node))
+                return True
+            for f in ('body', 'orelse', 'finalbody'):
+                if isinstance(getattr(st, f, None), list) and rec(getattr(st, f)):
+                    return True
+            for hd in getattr(st, 'handlers', []) or []:
+                if rec(hd.body):
+                    return True
+        return False
+    rec(fn.body)
+
+
 def _references(modules, h):
     """(call sites, other references) of the helper's name across the package"""
     calls = 0
@@ -721,7 +784,15 @@ def inline_fresh_helpers(modules, baseline=None, rounds=4):
                 continue
             # candidate caller functions: same class (methods, with their nested functions) for methods; same module for functions
             m = h.module
-            if h.is_method:
+            if h.parent is not None:
+                fns = [h.parent]
+                # the closure must only be called inside its parent, and must not be captured by a sibling closure that outlives the call
+                inside = sum(1 for n in ast.walk(h.parent) if isinstance(n, ast.Call) and isinstance(n.func, ast.Name) and n.func.id == h.name
+                             and not any(n is x for x in ast.walk(h.node)))
+                if inside != calls:
+                    log.append((h.qual, [], 'kept: called outside its parent'))
+                    continue
+            elif h.is_method:
                 fns = [s for s in h.cls.body if isinstance(s, ast.FunctionDef) and s is not h.node]
             else:
                 fns = []
@@ -750,7 +821,9 @@ def inline_fresh_helpers(modules, baseline=None, rounds=4):
                 log.append((h.qual, [], 'kept: %s' % ex))
                 continue
             # remove the definition
-            if h.is_method:
+            if h.parent is not None:
+                _remove_nested(h.parent, h.node)
+            elif h.is_method:
                 h.cls.body.remove(h.node)
             else:
                 m.tree.body.remove(h.node)
@@ -903,3 +976,76 @@ def split_conditional_expressions(modules):
     for m in modules.values():
         m.tree = _IfExpToIf().visit(m.tree)
         ast.fix_missing_locations(m.tree)
+
+
+# ----------------------------------------------------------------------------------------------- diagnostics
+
+LOG_METHODS = {'debug', 'info', 'warning', 'warn', 'error', 'exception', 'critical', 'log'}
+PURE_FUNCS = {'str', 'repr', 'len', 'int', 'float', 'bool', 'type', 'id', 'format', 'isinstance', 'getattr', 'hasattr', 'tuple', 'list', 'sorted'}
+
+
+def _pure_expr(e):
+    """evaluating e changes nothing: names, constants, attribute/subscript chains, operators, f-strings, pure builtins, str.format/join"""
+    for n in ast.walk(e):
+        if isinstance(n, ast.Call):
+            f = n.func
+            if isinstance(f, ast.Name) and f.id in PURE_FUNCS:
+                continue
+            if isinstance(f, ast.Attribute) and f.attr in ('format', 'join', 'get', 'keys', 'values', 'items', 'copy', 'qsize', 'is_set', 'is_alive', 'getLogger', 'getName'):
+                continue
+            return False
+        if isinstance(n, (ast.Await, ast.Yield, ast.YieldFrom, ast.NamedExpr, ast.Lambda)):
+            return False
+    return True
+
+
+def _is_log_call(c):
+    f = c.func
+    if not isinstance(f, ast.Attribute) or f.attr not in LOG_METHODS:
+        return False
+    recv = f.value
+    d = None
+    try:
+        d = ast.unparse(recv)
+    except Exception:
+        return False
+    if d == 'logging' or d.startswith('logging.getLogger(') or d == 'warnings':
+        return True
+    last = d.split('.')[-1].lower()
+    return last in ('log', 'logger', '_log', '_logger', 'logging')
+
+
+class _StripDiagnostics(ast.NodeTransformer):
+    def __init__(self):
+        self.n = 0
+
+    def _strip(self, stmts):
+        out = []
+        for st in stmts:
+            if isinstance(st, ast.Expr) and isinstance(st.value, ast.Call) and _is_log_call(st.value) \
+                    and all(_pure_expr(a) for a in st.value.args) and all(_pure_expr(k.value) for k in st.value.keywords):
+                self.n += 1
+                continue
+            out.append(st)
+        return out
+
+    def generic_visit(self, node):
+        super().generic_visit(node)
+        for f in ('body', 'orelse', 'finalbody'):
+            v = getattr(node, f, None)
+            if isinstance(v, list) and v and isinstance(v[0], ast.stmt):
+                new = self._strip(v)
+                if not new and f == 'body':
+                    new = [ast.copy_location(ast.Pass(), v[0])]
+                setattr(node, f, new)
+        return node
+
+
+def strip_diagnostics(modules):
+    """logging statements with effect-free arguments say nothing about any property: they are dropped before analysis"""
+    n = 0
+    for m in modules.values():
+        t = _StripDiagnostics()
+        m.tree = t.visit(m.tree)
+        n += t.n
+    return n
